@@ -20,7 +20,7 @@ NAMESPACE = 'XrlC06.C06'
 PROPS_FILE = os.path.join(LEAN_DIR, 'XrlC06', 'Props', 'C06.lean')
 TABLE_FILE = os.path.join(LEAN_DIR, 'XrlC06', 'Gen', 'Table.lean')
 WRAP = ['-Wl,--wrap=malloc,--wrap=calloc,--wrap=realloc,--wrap=free,--wrap=strdup,--wrap=strndup,--wrap=vasprintf',
-        '-Wl,--wrap=CompoundParser,--wrap=GetCompoundDataNISTByName']
+        '-Wl,--wrap=CompoundParser,--wrap=GetCompoundDataNISTByName,--wrap=Fi,--wrap=CS_Total']
 
 REQUIRED_THEOREMS = ['cp_table_conforms', 'cp_template_conforms', 'refr_template_conforms',
                      'cp_value', 'cp_element_fails', 'cp_unknown_compound', 'cp_formula_precedence', 'cp_nist_fallback',
@@ -103,10 +103,16 @@ def parse_c(ans):
     return d
 
 def split_line(line):
-    """harness line -> (inj prefix tokens, fn, mode, compound token, [double args])"""
+    """harness line -> (prefix tokens (`zero a b` and/or `inj P N`), fn, mode, compound token, [double args])"""
     t = line.split(' ')
-    o = 3 if t[0] == 'inj' else 0
+    o = 0
+    if t[o] == 'zero': o += 3
+    if t[o] == 'inj': o += 3
     return t[:o], t[o], t[o + 1], t[o + 2], [unhx(x) for x in t[o + 3:]]
+
+def synthetic(line):
+    """lines on which a wrapper of the harness answers instead of the real lookup / elemental function"""
+    return line.startswith('inj ') or line.startswith('zero ')
 
 def model_line(line, pc):
     inj, fn, mode, comp, args = split_line(line)
@@ -376,9 +382,10 @@ class Run:
         out.append(('inj-both', 'inj %s %s;%s' % (comp(2), rho(), comp(3)), 'Inj1'))              # precedence: both lookups succeed, differently
         out.append(('inj-both', 'inj - %s;%s' % (rho(), comp(2)), r.choice(['H2O', 'SiO2', 'CaCO3'])))   # real parser + injected catalogue entry
         out.append(('inj-nist', 'inj 0 %s;%s' % (rho(), comp(3)), 'Inj2'))
-        out.append(('inj-bad-first', 'inj %s 0' % comp(2, with_bad=0), 'Inj3'))                    # failing element BEFORE good ones
-        out.append(('inj-bad-middle', 'inj 0 %s;%s' % (rho(), comp(3, with_bad=1)), 'Inj4'))
-        out.append(('inj-bad-last', 'inj %s 0' % comp(2, with_bad=-1), 'Inj5'))
+        for k in range(3):       # the loop order of the real parser is ascending Z, and the elements without data are the heaviest: only here can they come first
+            out.append(('inj-bad-first', 'inj %s 0' % comp(2 + k, with_bad=0), 'Inj3'))            # failing element BEFORE good ones
+            out.append(('inj-bad-middle', 'inj 0 %s;%s' % (rho(), comp(3 + k, with_bad=1 + k // 2)), 'Inj4'))
+            out.append(('inj-bad-last', 'inj %s 0' % comp(2 + k, with_bad=-1), 'Inj5'))
         out.append(('inj-none', 'inj 0 0', 'H2O'))                                                 # both lookups fail on a name that is a formula
         out.append(('inj-zero-fraction', 'inj %s 0' % comp(3, zero=True), 'Inj6'))                 # the corner of cp_zero_product_witness
         return out
@@ -434,10 +441,27 @@ class Run:
                 for a in argsets('std')[:1]: emit(family, fn, c, a)
             for family, pre, key in self.injections(fn):
                 for a in argsets('std')[:1]: emit(family, fn, key, a, inj=pre)
+            # paths no real catalogue entry reaches: an entry without a positive density (the density guard with `cdn` live), an entry
+            # without elements (the loop does not run: only the guards and the final expression decide)
+            rr = self.rng
+            for a in argsets('std')[:1]: emit('inj-empty', fn, 'Inj7', a, inj='inj 0 %s;' % hx(rr.choice([1.0, 2.7])))
+            if fn in REFR:
+                comp = ','.join('%d:%s' % (z, hx(w)) for z, w in zip(rr.sample(range(1, 93), 2), (0.25, 0.75)))
+                E = self.energies(fn, 1)[0]
+                for rho_n, rho_u in ((0.0, 0.0), (-1.0, -1.0), (0.0, 1.0), (-2.0, 0.0)):
+                    emit('inj-nist-nodensity', fn, 'Inj8', (E, rho_u), inj='inj 0 %s;%s' % (hx(rho_n), comp))
+                for E0 in (0.0, -1.0):
+                    emit('inj-empty', fn, 'Inj7', (E0, 1.0), inj='inj 0 %s;' % hx(1.0))
+            # the corner "a successful value of exactly 0" on the real functions: Fi / CS_Total answer 0.0 for one element of a real compound
+            if fn in REFR or fn == 'CS_Total':
+                for c, zs in (('H2O', (1, 8)), ('CaCO3', (6, 8, 20)), ('Water, Liquid', (1, 8)), ('Pb(C2H3O2)2', (1, 82))):
+                    z = r.choice(zs)
+                    pre = 'zero %d 0' % z if fn in ('Refractive_Index_Re',) else ('zero 0 %d' % z if fn in ('Refractive_Index_Im', 'CS_Total') else r.choice(['zero %d 0', 'zero 0 %d']) % z)
+                    for a in argsets('std')[:1]: emit('zero-elemental', fn, c, a, inj=pre)
         # NULL slot on every 7th line
         extra = []
         for i in range(0, len(lines), 7):
-            t = lines[i].split(' '); o = 3 if t[0] == 'inj' else 0
+            t = lines[i].split(' '); o = len(split_line(lines[i])[0])
             t[o + 1] = 'N'; extra.append((' '.join(t), fam[i], meta[i]))
         for l, f, m in extra: lines.append(l); fam.append(f); meta.append(m)
         return lines, fam, meta
@@ -617,7 +641,7 @@ class C06:
                         sstats['max_rel_dev'] = max(sstats.get('max_rel_dev', 0.0), abs(a - b) / max(abs(a), abs(b)))
             if ex[0] == 'corner':
                 f = fam[i]; corners.setdefault(f, []).append(lines[i])
-                if not f.startswith('inj') and f != 'replay':
+                if not synthetic(lines[i]):
                     probs = probs + ['%s on an input the real lookups produce: the call returned %s %s' % (ex[1], pc['vals'], pc['slot'])]
             site = None
             if probs and ex[0] == 'fails' and ex[1] == 'element without data':
@@ -708,6 +732,9 @@ class C06:
         inj, fn, mode, comp, args = split_line(line)
         name = fn if fn in REFR else fn + '_CP'
         s = '%s("%s", %s, %s)' % (name, unesc(comp).replace('\n', '\\n'), ', '.join(repr(a) for a in args), '&error' if mode == 'E' else 'NULL')
+        if inj and inj[0] == 'zero':
+            s += '   with ' + ' and '.join(x for x in ('Fi(%s, .)' % inj[1] if inj[1] != '0' else '', 'CS_Total(%s, .)' % inj[2] if inj[2] != '0' else '') if x) + ' answering 0.0 without an error'
+            inj = inj[3:]
         if inj: s += '   with the lookups answering  CompoundParser -> %s,  GetCompoundDataNISTByName -> %s' % (
             self._show_inj(inj[1]), self._show_inj(inj[2], True))
         return s
@@ -721,14 +748,14 @@ class C06:
 
     def shrink(self, R, new, known_site=False):
         """smallest failing call: shortest found, then substring deletion in the compound, then rounder arguments"""
-        best = min(new, key=lambda v: (v[0].startswith('inj'), len(v[0])))
+        best = min(new, key=lambda v: (synthetic(v[0]), len(v[0])))
         def failing(cands):
             co = R.run_c(cands); res = []
             for l, c in zip(cands, co):
                 pc = parse_c(c)
                 if pc is None: res.append((l, 'library died or answered nothing: ' + c[:200], c, '', None)); continue
                 probs, ex = judge(l, pc)
-                if ex[0] == 'corner' and not l.startswith('inj'): probs = probs + [ex[1]]
+                if ex[0] == 'corner' and not synthetic(l): probs = probs + [ex[1]]
                 if probs and known_site and ex[0] == 'fails' and masked_failure(l, pc) is not None: probs = []
                 res.append((l, probs[0], pc['res'], '%s %s' % (ex[0], ex[1]), None) if probs else None)
             return res
